@@ -12,7 +12,7 @@ K_CONST, K_VAR, K_GLOBAL, K_FUNC, K_BUILTIN = 0, 1, 2, 3, 4
 
 
 class Func:
-    __slots__ = ('name', 'pkg', 'params', 'freevars', 'results', 'blocks', 'extern', 'ninstr', 'hash', 'pos', 'short')
+    __slots__ = ('name', 'pkg', 'params', 'freevars', 'results', 'blocks', 'extern', 'ninstr', 'hash', 'pos', 'short', 'nreturns')
 
 
 class Block:
@@ -95,6 +95,7 @@ class Program:
         f.pkg = fj.get('pkg')
         f.pos = fj.get('pos', '')
         f.blocks = None
+        f.nreturns = 0
         f.params = [(p['name'], p['type']) for p in (fj.get('params') or [])]
         f.freevars = [(p['name'], p['type']) for p in (fj.get('freevars') or [])]
         f.results = fj.get('results') or []
@@ -125,6 +126,7 @@ class Program:
             b.ismerge = len(b.preds) >= 2
             blocks.append(b)
         f.blocks = blocks
+        f.nreturns = sum(1 for b in blocks for i in b.instrs if i['op'] == 'Return')
         self._liveness(f)
         self._rpo(f)
         return f
